@@ -273,7 +273,11 @@ def run_property(pid, tier='quick', seed=0, only=None, jobs=None):
         nviol_before = len(violations)
         guard_errors = []
         seen_fail = set()
+        # a must-fail twin is a clause about the whole function: it is refuted if SOME path refutes it
+        twin_refuted = {o['label'] for o in r['obligations'] if o['kind'] == 'twin' and o['status'] == DISCHARGED}
         for o in r['obligations']:
+            if o['kind'] == 'twin' and o['status'] != DISCHARGED and o['label'] in twin_refuted:
+                continue
             n_obl += 1
             backends[o['backend']] = backends.get(o['backend'], 0) + 1
             if o['status'] == DISCHARGED:
